@@ -174,6 +174,10 @@ def check(ck):
     gnp = cfg_of(fnp)
     okk = any(prov.origin(gnp, rn, rn.ast.value) == ("call", ("global", "_Notify"), (("attr", ("param", "self"), "_request_notify"),), ())
               for rn in gnp.live_nodes() if rn.kind == "return" and rn.ast is not None and rn.ast.value is not None)
+    if not okk and any(isinstance(x_, ast.Call) and dump(x_) == "_Notify(self._request_notify)" for x_ in ast.walk(fnp.node)) and \
+            any(isinstance(x_, ast.Subscript) and isinstance(x_.ctx, ast.Store) and "self" in dump(x_.value) for x_ in ast.walk(fnp.node)):
+        # the notifier object is built as required but kept in a cache of the proxy: which object a later access returns is not followed
+        raise AnalysisError("ServerProxy._notify caches the _Notify object it builds: not modelled")
     ck.require(okk, "C01.7", "%s: _Notify(self._request_notify)" % q.fn(fnp), "notifications use _request_notify",
                "proxy._notify is not bound to _request_notify", q.loc(fnp, fnp.node))
     for (cls, notify) in (("MultiCall", False), ("MultiCallNotify", True)):
@@ -568,7 +572,15 @@ def check(ck):
             ms_ = q.mapped_sequence(gm, n, c.args[0]) if isinstance(c.func, ast.Attribute) and c.func.attr == "join" and len(c.args) == 1 else None
             if ms_ is not None:
                 it_, tg_, elt_ = ms_
-                okk = prov.origin(gm, n, it_) == ("attr", ("param", "self"), "_job_list") and \
+                jl_ = ("attr", ("param", "self"), "_job_list")
+                ti_ = prov.origin(gm, n, it_)
+                # (the job list itself, or a copy of all of it taken just before - `self._job_list[:]`, list(self._job_list))
+                whole = ti_ == jl_ or (ti_[0] == "call" and ti_[1] in (("global", "list"), ("global", "tuple")) and ti_[2] == (jl_,)) or \
+                    (isinstance(it_, ast.Name) and any(isinstance(st_, ast.Assign) and any(isinstance(t_, ast.Name) and t_.id == it_.id for t_ in st_.targets) and
+                                                       dump(st_.value) in ("self._job_list[:]", "list(self._job_list)", "tuple(self._job_list)")
+                                                       for st_ in ast.walk(fmc.node)) and
+                     sum(1 for st_ in ast.walk(fmc.node) if isinstance(st_, ast.Assign) and any(isinstance(t_, ast.Name) and t_.id == it_.id for t_ in st_.targets)) == 1)
+                okk = whole and \
                     isinstance(elt_, ast.Call) and dump(elt_.func) == "%s.request" % dump(tg_) and not elt_.args and \
                     isinstance(c.func.value, ast.Constant) and c.func.value.value == ","
                 joined = n
@@ -606,7 +618,10 @@ def check(ck):
         # cleared on every normal path that sends the batch - after the exchange, or before it once the body has been built from
         # the jobs (clearing before the body is built would send nothing)
         domm = dominators(gm)
-        okk = any(d.id in pdm[rn_.id] for d in dels) or any(d.id in domm[rn_.id] and joined.id in domm[d.id] for d in dels)
+        copies_ = [m_ for m_ in gm.live_nodes() if m_.kind == "stmt" and isinstance(m_.ast, ast.Assign) and
+                   dump(m_.ast.value) in ("self._job_list[:]", "list(self._job_list)", "tuple(self._job_list)")]
+        okk = any(d.id in pdm[rn_.id] for d in dels) or any(d.id in domm[rn_.id] and joined.id in domm[d.id] for d in dels) or \
+            any(d.id in domm[rn_.id] and any(cp_.id in domm[d.id] for cp_ in copies_) for d in dels)      # (or once a copy of the jobs was taken)
         ck.require(okk, "C01.6", "%s: job list cleared after the exchange" % q.fn(fmc), "`del self._job_list[:]` post-dominates the exchange",
                    "after a batch was sent there is a normal path on which the job list is not cleared: re-using the MultiCall "
                    "re-sends (and re-executes) the previous calls", q.loc(fmc, rn_))
